@@ -119,9 +119,14 @@ def run(prog, chk):
             raise AnalysisBroken('gate %s: %s' % (gt.short, e))
         chk.ob('R03.2', gt, gt.ln, uni, 'gate %s matrix is unitary for every angle' % gt.short, key='unitary:' + gt.short)
     m = sim['measure']
-    info = analyse_measure_like(prog, m, amp, m.params[0], sp, KS, KP)
-    p1 = info['p1sym']
-    for res in (0, 1):
+    from .C02 import PartialSweep
+    try:
+        info = analyse_measure_like(prog, m, amp, m.params[0], sp, KS, KP)
+    except PartialSweep as e:
+        chk.ob('R03.2', m, e.ln or m.ln, False, 'measure does not sweep the whole state vector (%s): the renormalisation constant is wrong' % e, key='norm:measure:sweep')
+        info = None
+    p1 = info['p1sym'] if info else None
+    for res in ((0, 1) if info else ()):
         pk = p1 if res else 1 - p1
         got = info['collapse'][(res, res)].get(res, KP.A[res])
         c = sp.simplify(got / KP.A[res])
@@ -149,7 +154,7 @@ def run(prog, chk):
                 continue
             nd += 1
             d = SX.strip(n['r'] if n['k'] != 'opcall' else n['args'][1])
-            ok, why = _divisor_ok(prog, f, n, d, pm, info if f is m else None)
+            ok, why = _divisor_ok(prog, f, n, d, pm, info if (f is m and info) else None)
             chk.ob('R03.3', f, n.get('ln', f.ln), ok, 'divisor %s: %s' % (SX.show(d)[:40], why), key='div:%s:%s' % (f.short, SX.show(d)[:24]))
     chk.count('floating-point divisions in the simulator', nd, 4)
 
